@@ -246,7 +246,10 @@ def crash_case(case):
 
 
 def syscall_case(case):
-    """Hook-free enumerator: SIGKILL at entry of the N-th file-system syscall (per thread), N = 1.. until not reached."""
+    """Hook-free enumerator. For each CLASS of file-system system call separately (so that the few late calls - rename, unlink,
+    chmod - are reached deterministically instead of being shadowed by the many writes), SIGKILL at entry of the N-th call of the
+    class (per thread), N = 1.. until the run completes; and the same positions with an injected error (EIO / ENOSPC) instead of a
+    kill, which must take the normal error path: exit != 0, every file original-or-transformed, no temp file left."""
     sc = make_scenario(case["seed"], case["tier"])
     res = case_result(_h("sys", case["seed"]), nontrivial=False)
     exp = expected_outputs(sc)
@@ -255,38 +258,70 @@ def syscall_case(case):
         return res
     names = [f["name"] for f in sc["files"]]
     argv = ["-I"] + sc["flags"] + sc["verb"] + names
-    calls = "openat,write,close,renameat,renameat2,fchmodat,unlinkat,chmod,rename,fchmod"
-    cap = 40 if case["tier"] == "quick" else 200
+    quick = case["tier"] == "quick"
+    classes = [("rename", "renameat,renameat2,rename", 6), ("unlink", "unlinkat,unlink", 6), ("chmod", "fchmodat,chmod,fchmod", 6),
+               ("openat", "openat", 12 if quick else 40), ("close", "close", 12 if quick else 40), ("write", "write", 12 if quick else 60)]
     nt_keys = []
-    misses = 0
-    for N in range(1, cap + 1):
-        cwd = setup_dir(sc)
-        try:
-            wrapper = ["strace", "-f", "-o", "/dev/null", "-e", f"trace={calls}", "-e", f"inject={calls}:signal=SIGKILL:when={N}"]
-            r = R.mlr(argv, cwd=cwd, wrapper=wrapper, watchdog=60)
-            bump(res, "syscall_crash_runs")
-            detail = {"argv": argv, "strace_when": N, "scenario_seed": case["seed"],
-                      "files": {f["name"]: f["data"][:2000] for f in sc["files"]}}
-            killed = (r.signal == 9) or (r.rc == 137)
-            if r.verdict == "slow":
-                res["inconc"] += 1
+    for cname, calls, cap in classes:
+        for action in ("kill", "error"):
+            if action == "error" and cname in ("openat",):
                 continue
-            if not killed:
-                misses += 1
-                # the run completed: N exceeds every thread's call count => enumeration complete
-                if r.rc == 0:
-                    inspect(res, sc, cwd, exp, f"syscall enumerator N={N} (not reached, run completed)", False, detail, {"phase": "syscall-complete"})
-                if misses >= 2:
-                    break
-                continue
-            bump(res, "syscall_kill_points")
-            states = inspect(res, sc, cwd, exp, f"after SIGKILL at file-system syscall #{N} (per-thread count)", True, detail, {"phase": "syscall-crash"})
-            if any(e.startswith("mlr-in-place-") for e in os.listdir(cwd)) or "new" in states:
-                nt_keys.append(_h(case["seed"], "sys", N))
-        finally:
-            shutil.rmtree(cwd, ignore_errors=True)
+            misses = 0
+            for N in range(1, cap + 1):
+                cwd = setup_dir(sc)
+                stlog = cwd + ".strace"
+                try:
+                    inj = "signal=SIGKILL" if action == "kill" else ("error=ENOSPC" if cname == "write" else "error=EIO")
+                    wrapper = ["strace", "-f", "-o", stlog, "-e", f"trace={calls}", "-e", f"inject={calls}:{inj}:when={N}"]
+                    r = R.mlr(argv, cwd=cwd, wrapper=wrapper, watchdog=60)
+                    bump(res, "syscall_runs")
+                    try:
+                        injected = b"INJECTED" in open(stlog, "rb").read() if action == "error" else True
+                    except OSError:
+                        injected = False
+                    detail = {"argv": argv, "strace_class": cname, "strace_action": action, "strace_when": N, "scenario_seed": case["seed"],
+                              "modes": {f["name"]: oct(f["mode"]) for f in sc["files"]},
+                              "files": {f["name"]: f["data"][:2000] for f in sc["files"]}, "rc": r.rc, "stderr": r.err[:300]}
+                    if r.verdict == "slow":
+                        res["inconc"] += 1
+                        continue
+                    sig0 = {"phase": "syscall-" + action, "call": cname}
+                    if action == "kill":
+                        killed = (r.signal == 9) or (r.rc == 137)
+                        if not killed:
+                            misses += 1
+                            if r.rc == 0:
+                                inspect(res, sc, cwd, exp, f"{cname} kill N={N} not reached, run completed", False, detail, dict(sig0, reached=False))
+                            if misses >= 2:
+                                break
+                            continue
+                        bump(res, "syscall_kill_points")
+                        bump(res, "kill_at:" + cname)
+                        states = inspect(res, sc, cwd, exp, f"after SIGKILL at entry of {cname} call #{N} (per thread)", True, detail, sig0)
+                        if cname in ("rename", "unlink", "chmod") or "new" in states:
+                            nt_keys.append(_h(case["seed"], cname, action, N))
+                    else:
+                        if not injected:
+                            misses += 1
+                            if misses >= 2:
+                                break
+                            continue
+                        bump(res, "syscall_error_points")
+                        # an injected error may hit a call that does not matter (a stderr write, a close of the input): then the run
+                        # may legitimately succeed; whatever the exit status, the files must be whole, and exit 0 means all done
+                        states = inspect(res, sc, cwd, exp, f"after injected error at {cname} call #{N} (exit {r.rc})", False, detail, sig0)
+                        if r.rc == 0 and any(st == "orig" for st in states):
+                            add_violation(res, dict(sig0, kind="exit-0-not-transformed"),
+                                          f"injected error at {cname} call #{N}: exit 0 but a file still has its original content (states {states})", detail)
+                        if r.rc != 0:
+                            nt_keys.append(_h(case["seed"], cname, action, N))
+                finally:
+                    shutil.rmtree(cwd, ignore_errors=True)
+                    if os.path.exists(stlog):
+                        os.unlink(stlog)
     res["nontrivial_keys"] = nt_keys
-    res["sample"] = {"monitor": "syscall-crash", "argv": argv, "kill_points": res["stats"].get("syscall_kill_points", 0)}
+    res["sample"] = {"monitor": "syscall-class-enumerator", "argv": argv, "kill_points": res["stats"].get("syscall_kill_points", 0),
+                     "error_points": res["stats"].get("syscall_error_points", 0)}
     return res
 
 
@@ -497,8 +532,8 @@ def run(chk):
     q = chk.quick()
     chk.rule = ("scenarios = (1-4 files of 0/1/3/40/700 records, csv/json/dkvp, optional .gz/.z, modes 0644/0600/0755/0444/0640) x verb; "
                 "hook enumerator: SIGKILL at every hit of every inplace.* site, at writer.record#n (all n on small files, boundary + sampled n on large) "
-                "and stream.flush#n; syscall enumerator: SIGKILL at entry of the N-th openat/write/close/rename/chmod/unlink (per thread) for N=1.. "
-                "until the run completes; write faults: RLIMIT_FSIZE at 9-17 sizes so that an ordinary write, the final flush or the compressor trailer fails; failure paths: DSL error / malformed input / missing file / schema change / ENOSPC / refusals at file index i. "
+                "and stream.flush#n; syscall enumerator: per class of call (rename, unlink, chmod, openat, close, write) SIGKILL at entry of the N-th call, N=1.. "
+                "until the run completes, and the same positions with an injected EIO/ENOSPC; write faults: RLIMIT_FSIZE at 9-17 sizes so that an ordinary write, the final flush or the compressor trailer fails; failure paths: DSL error / malformed input / missing file / schema change / ENOSPC / refusals at file index i. "
                 "Non-trivial = kill strictly inside the temp-file window, or failure at file index >= 2; distinct = (scenario, site, n)")
     if not only or "crash" in only:
         n = 20 if q else 300
